@@ -57,13 +57,16 @@ ENCODED = ["twisted.internet.task:LoopingCall.start", "twisted.internet.task:Loo
 BOUNDS = {"quick": {"adv": 3}, "thorough": {"adv": 5}}
 B = {}
 IVS = [1.0, 2.0, 3.0, 0.5, 0.25]
-BOUNDS_TEXT = ("interval case-split over {1, 2, 3, 0.5, 0.25}; start time = any real >= 0; `now` flag symbolic; "
-               "plain and withCount loops; 3 (quick) / 5 (thorough) advances by any real amount >= 0 (so <= 4 / 6 "
-               "iterations, jumps of any number of intervals, sub-interval steps); the function's behaviour in each "
-               "of its first 3 calls is symbolic: return / raise / return a Deferred that the harness later fires "
-               "or errbacks after a symbolically chosen advance (or never); one stop() or reset() at a symbolic "
-               "point: inside call k, right after start(), or after advance j.  E6 lemma: howLong() for ALL reals "
-               "interval > 0, when >= starttime (unbounded)")
+BOUNDS_TEXT = ("interval case-split over {1, 2, 3, 0.5, 0.25}; start time = any real in [0, 4 intervals]; `now` flag "
+               "symbolic; plain and withCount loops; 3 (quick) / 5 (thorough) advances, each any real amount in "
+               "[0, 5 intervals] (so <= 4 / 6 iterations, jumps over several boundaries, sub-interval steps); the "
+               "function's behaviour in each of its first 3 calls is symbolic: return / raise / return a Deferred that "
+               "the harness fires or errbacks after a symbolically chosen later advance (or never); one stop() or "
+               "reset() at a symbolic point: inside call k, right after start(), or after advance j.  Quick slices: "
+               "(A) every interval x all behaviours, no stop/reset; (B) every interval x top-level reset(), function "
+               "always returns; (C) stop() at every place x all behaviours for intervals 1 and 0.5; (D) reset() at "
+               "every place x all behaviours for interval 1 (withCount) and 0.25 (plain).  Thorough: full product.  "
+               "E6 lemma: howLong() for ALL real interval > 0, when >= starttime (unbounded)")
 OUTSIDE = ["Float64 rounding: E1 and the E6 lemma are over exact reals/rationals; the 'effectively zero' guard "
            "`when == when + untilNextInterval` of _scheduleFrom is only needed for floating point and is "
            "unreachable over reals (the lemma proves that); its floating-point correctness is NOT claimed",
